@@ -34,7 +34,7 @@ ANCHORS = [
     "stereomolgraph.rdmol2graph:RDMol2StereoMolGraph.smg_from_rdmol#neighbors_begin_with_none = ",
 ]
 REQUIRED_ANCHORS = ANCHORS
-REQUIRED = ["pairs_same_isomer", "label_sets", "mapnum_imports", "kind:renumber", "kind:respell", "kind:both", "options:8", "labels:SP", "labels:TB", "labels:OH", "labels:TET", "labels:EZ"]
+REQUIRED = ["pairs_same_isomer", "label_sets", "mapnum_imports", "kind:renumber", "kind:respell", "kind:both", "options:8", "labels:SP", "labels:TB", "labels:OH", "labels:TET", "labels:EZ", "molecules_over_256_atoms"]
 CASE_TIMEOUT = 120
 SKELETONS = [
     "CC(O)F", "CC(N)C(=O)O", "FC=CCl", "CC1CCC(C)CC1", "OCC(O)C(O)C=O", "NC(CS)C(=O)O", "CS(=O)CC", "ClC(Br)=C(F)I", "CC(Cl)C(Br)C", "CC=CC(C)O",
@@ -128,6 +128,10 @@ def gen_cases(ctx):
         else:
             smi = OH_T.format(rng.randint(1, 30))
         yield {"kind": "same", "smiles": smi, "variant": kinds[(i // 8) % 3], "opt": (i // 24) % 8, "vseed": rng.randrange(1 << 30)}
+    # molecules with more than 256 atoms (atom indices beyond CPython's small-int cache, beyond int8 ...)
+    big = ["C/C=C/" + "C" * 86, "C/C=C\\" + "C" * 86, "C" * 40 + "/C=C/" + "C" * 44, "C[C@H](F)" + "C" * 84 + "/C=C\\C", "F/C=C/" + "C" * 60 + "/C=C\\Cl" + "C" * 20]
+    for j in range(ctx.n(320, 4000)):
+        yield {"kind": "same", "smiles": big[(j + ctx.shard) % len(big)], "variant": ("renumber", "both")[j % 2], "opt": (j // 2 + ctx.shard) % 8, "vseed": rng.randrange(1 << 30), "big": True}
     sets = ["SP", "TB", "OH", "TET", "EZ"]
     for j in range(ctx.n(80, 2000)):
         yield {"kind": "labels", "set": sets[(j * ctx.nshards + ctx.shard) % 5], "opt": rng.choice([1, 3, 5, 7]), "vseed": rng.randrange(1 << 30)}
@@ -230,6 +234,8 @@ def check_case(ctx, case):
     opt = case["opt"]
     klass = _klass(m1)
     ctx.count("pairs_same_isomer")
+    if m1.GetNumAtoms() > 256:
+        ctx.count("molecules_over_256_atoms")
     ctx.count(f"kind:{kind}")
     ctx.count(f"options:{len(OPTS)}" if True else "")
     ctx.count(f"opt:{opt}")
